@@ -31,7 +31,11 @@ type String struct {
 
 var (
 	// Zero is a String of zero length.
-	Zero String = String{r: []rune{}, gc: new([]int)}
+	//
+	// Its grapheme cluster cache is filled from the start (with the empty,
+	// non-nil slice) so that no operation ever needs to write to this shared
+	// package-level value.
+	Zero String = String{r: []rune{}, gc: &[]int{}}
 )
 
 // Add adds two strings together and returns the result. The original String is
